@@ -197,6 +197,13 @@ impl Runner {
                         msg: format!("connection buffer capacity reached {} bytes under an item limit of {} (bound {}), {} bytes buffered", self.sut.max_cap, self.limit, bound, self.sut.cbuf.len()),
                     });
                 }
+                if o.contains("P:decode_loop") {
+                    self.oracle.violations.push(oracle::Violation {
+                        props: vec!["C10", "C12", "C09"],
+                        line: lineno,
+                        msg: "decoding does not terminate on this input: the decoder hands out request after request without consuming a byte of the buffer (the connection task would never return to the socket)".to_string(),
+                    });
+                }
                 o
             }
             ["codec"] => {
